@@ -30,7 +30,7 @@ func (s BFSTreeFile) ReadEach(ctx context.Context, delegate func(next *Segment) 
 		} else {
 			defer gzipReader.Close()
 
-			scanner := bufio.NewScanner(fin)
+			scanner := bufio.NewScanner(gzipReader)
 			scanner.Split(bufio.ScanLines)
 
 			for scanner.Scan() {
